@@ -9,7 +9,7 @@ from typing_extensions import Never
 from mypy_extensions import mypyc_attr
 
 from pyjelly import jelly
-from pyjelly.errors import JellyConformanceError
+from pyjelly.errors import JellyAssertionError, JellyConformanceError
 from pyjelly.options import MAX_VERSION, LookupPreset, StreamParameters, StreamTypes
 from pyjelly.parse.lookup import LookupDecoder
 
@@ -259,13 +259,26 @@ class Decoder:
 
     def validate_stream_options(self, options: jelly.RdfStreamOptions) -> None:
         stream_types, lookup_preset, params = self.options
-        assert stream_types.physical_type == options.physical_type
-        assert stream_types.logical_type == options.logical_type
-        assert params.stream_name == options.stream_name
-        assert params.version >= options.version
-        assert lookup_preset.max_prefixes == options.max_prefix_table_size
-        assert lookup_preset.max_datatypes == options.max_datatype_table_size
-        assert lookup_preset.max_names == options.max_name_table_size
+        # Explicit checks, not `assert`: they guard against untrusted input and
+        # must also hold when Python runs with -O.
+        expected = {
+            "physical_type": stream_types.physical_type,
+            "logical_type": stream_types.logical_type,
+            "stream_name": params.stream_name,
+            "max_prefix_table_size": lookup_preset.max_prefixes,
+            "max_datatype_table_size": lookup_preset.max_datatypes,
+            "max_name_table_size": lookup_preset.max_names,
+        }
+        for field, value in expected.items():
+            if getattr(options, field) != value:
+                msg = (
+                    f"stream options changed: {field} is "
+                    f"{getattr(options, field)!r}, expected {value!r}"
+                )
+                raise JellyAssertionError(msg)
+        if params.version < options.version:
+            msg = f"unsupported stream version {options.version}"
+            raise JellyAssertionError(msg)
 
     def ingest_prefix_entry(self, entry: jelly.RdfPrefixEntry) -> None:
         """
